@@ -1,12 +1,16 @@
-"""C16 - request ids are unique per connection under concurrent use (bounded smoke complement; proof tier pending)."""
-from checks._bounded import run_bounded_check
+"""C16 - request ids are unique per connection under concurrent use (lock-invariant proof + smoke complement)."""
+from checks._proof import run_proof_check
+
+PROP = 'C16'
 
 
 def run():
-    return run_bounded_check(
-        'C16', 'harness.c16',
-        "2 sequential runs plus threaded trials (3-9 threads x 60/200 requests through one connection and connections derived "
-        "from it, switch interval 1e-6, stub opener): ids distinct, numbers gapless, caller-supplied id kept and consuming no "
-        "number; non-trivial = >= 2 threads",
-        ["interleavings are not explored systematically (that is the lock-invariant proof's job)",
-         "caller id spelled exactly X-Request-ID"])
+    return run_proof_check(
+        PROP, ['contracts.c16_request_ids'], ['ak.conn_http'], level='proof', harness='harness.c16',
+        bounded_rule="2 sequential runs plus threaded trials (3-9 threads x 60/200 requests through one connection and "
+                     "connections derived from it, switch interval 1e-6, stub opener): ids distinct, numbers gapless, caller id "
+                     "kept; smoke complement only - interleavings are covered by the lock-invariant obligations, not sampled; "
+                     "non-trivial = >= 2 threads",
+        checker_note="+ AST scan of every ak/*.py for accesses to the counter (lock-invariant obligations)",
+        extra_assumptions=["caller id is matched with the exact spelling 'X-Request-ID' (urllib capitalises header names; "
+                           "a caller writing 'x-request-id' is an unchecked edge)"])
